@@ -2,7 +2,7 @@
 REG = dict(
     engine='E1-enum',
     technique='bounded-exhaustive enumeration of dependency-respecting input sequences, each executed twice on the real JSON-session handler (one request per input vs. one request for the whole program), differential oracle',
-    text="All dependency-respecting sequences of 1..5 (quick) / 1..8 (thorough) distinct inputs from a pool of 12 (two functions, the second calling the first; an enum; a struct; two lets, the second using the first; one assignment to an earlier let; five expressions using earlier names), the last input always an expression. Oracle: the value displayed for the last expression in the incremental session equals the value displayed when the inputs are joined with newlines and sent as ONE request to a fresh session (the `Loaded N definitions ..., and the expression evaluated to V.` wrapper is stripped); additionally canon(Env) of both sessions restricted to user-visible state (user namespace entries, type names, test names, top-level bindings, namespace of the top frame) is equal.",
+    text="All dependency-respecting sequences of 1..5 (quick) / 1..6 (thorough) distinct inputs from a pool of 19 (two functions, the second calling the first; an enum; a struct; two lets, the second using the first; one assignment to an earlier let; five expressions using earlier names; a counter variable with a `for` loop, a `while` loop, a loop inside a top-level block and a loop followed by a definition in the same input, and two expressions reading them), the last input always an expression. Oracle: the value displayed for the last expression in the incremental session equals the value displayed when the inputs are joined with newlines and sent as ONE request to a fresh session (the `Loaded N definitions ..., and the expression evaluated to V.` wrapper is stripped); additionally canon(Env) of both sessions restricted to user-visible state (user namespace entries, type names, test names, top-level bindings, namespace of the top frame) is equal.",
     note='Every name is defined once and every input is error-free (checked: an error in the incremental session is a generator error). Function values are displayed with their definition line, which legitimately differs between the two layouts and is masked. Value stacks and pending expressions are not compared.',
     design_ref='DESIGN.md §6 C11',
 )
@@ -27,6 +27,15 @@ POOL = [  # (id, kind, source, direct dependencies)
     ("e_enum", "expr", "Circle(7)", ["Shape"]),
     ("e_struct", "expr", "Pt{ px: a, py: b }", ["Pt", "a", "b"]),
     ("e_sum", "expr", "a + 1", ["a"]),
+    # loops, blocks and compound inputs that update a top-level variable (a request whose last expression is a loop, a loop
+    # followed by a definition in the same request, a loop inside a top-level block)
+    ("tot", "let", "let tot = 0", []),
+    ("loop1", "stmt", "for n in [1, 2, 3] { tot += n }", ["tot"]),
+    ("loopdef", "compound", "for n in [4, 5] { tot += n }\nfun f3(x) { x * 3 }", ["tot"]),
+    ("blk", "block", "{ for n in [6] { tot += n } }", ["tot"]),
+    ("wh", "stmt", "while tot < 3 { tot += 1 }", ["tot"]),
+    ("e_tot", "expr", "tot", ["tot"]),
+    ("e_f3", "expr", "f3(tot)", ["loopdef", "tot"]),
 ]
 BY_ID = {p[0]: p for p in POOL}
 WRAP = re.compile(r"^(?:Loaded .*?|Ran .*?), and the expression evaluated to (.*)\.$", re.S)
@@ -125,7 +134,7 @@ def check_chunk(ctx, part, res, found, values):
 
 
 def run(ctx):
-    max_len = 5 if ctx.quick else 8
+    max_len = 5 if ctx.quick else 6
     seqs = sequences(max_len)
     ctx.bound("pool", len(POOL))
     ctx.bound("max_inputs", max_len)
@@ -151,7 +160,7 @@ def run(ctx):
     if len(values) < 6:
         raise Machinery(f"vacuous: only {len(values)} distinct last values over {len(seqs)} sequences")
     kinds_seen = {BY_ID[p][1] for s in seqs for p in s}
-    if kinds_seen != {"fun", "enum", "struct", "let", "assign", "expr"}:
+    if not kinds_seen >= {"fun", "enum", "struct", "let", "assign", "expr", "stmt", "compound", "block"}:
         raise Machinery(f"vacuous: input kinds covered {sorted(kinds_seen)}")
     for s in (seqs[0], seqs[len(seqs) // 2], seqs[-1]):
         ctx.sample({"inputs": [BY_ID[p][2] for p in s]})
@@ -167,7 +176,7 @@ def run(ctx):
         sig = f"inputs={'+'.join(kinds)} last={BY_ID[s[-1]][2]} differs={what}"
         confirm(ctx, d)
         ctx.violation(sig, d, cli_cmd="garden reftest-json-session on (a) one request per input and (b) one request with the inputs joined by \\n; compare the last responses")
-    return (f"every dependency-respecting sequence of 1..{max_len} distinct inputs from the pool of 12 whose last input is an expression; each sequence is executed twice "
+    return (f"every dependency-respecting sequence of 1..{max_len} distinct inputs from the pool of 19 whose last input is an expression; each sequence is executed twice "
             "(incremental, one program). All sequences are non-trivial (they evaluate an expression that uses earlier inputs).")
 
 
